@@ -246,6 +246,7 @@ def run_job(job):
         return res
     rb = raise_bound(tier)
     diverged = []
+    recheck = []  # (nports, seq, assign, choices, observation) of some executions, re-executed at the end
     for nports, seq, assign in combos(tier)[job["i"]::job["n"]]:
         base = {"nports": nports, "seq": seq, "assign": assign}
         scheds = set()
@@ -263,6 +264,8 @@ def run_job(job):
             res.traces += 1
             nontrivial = info is not None and (info[1] or bool(info[2]))
             res.case((nports, tuple(seq), tuple(assign), tuple(ch.choices)), nontrivial=nontrivial)
+            if info is not None and len(recheck) < 40 and (len(ch.choices) >= 2 or not recheck) and not r.violations:
+                recheck.append((nports, seq, assign, list(ch.choices), info))
             if info is not None:
                 scheds.add(info[0])
                 if info[1]:
@@ -275,6 +278,13 @@ def run_job(job):
         res.outcome(("orders", len(scheds)))
         if len(res.samples) < 1 and len(scheds) >= 3:
             res.sample({"ports": nports, "sequence": seq, "port_of_each": assign, "service_orders_explored": sorted(map(list, scheds))})
+    # determinism self-test: re-execute recorded schedules, the observations must be identical
+    for nports, seq, assign, choices, info in recheck:
+        r2 = Res()
+        again = execute(X.Chooser(choices), nports, seq, assign, r2, {"nports": nports, "seq": seq, "assign": assign, "choices": choices}, rb)
+        res.counters["schedules_replayed_for_determinism"] += 1
+        if again != info and not res.violations:
+            diverged.append(f"re-execution of {seq} on {assign} with choices {choices} observed {again}, first run observed {info}")
     res.counters["replay_divergences"] += len(diverged)
     if diverged and not res.violations:
         from mc.core import HarnessError
